@@ -4,4 +4,6 @@ D=/verif/seeded/$1; ID=${2:-$(echo $1 | cut -d- -f1)}
 git -C /repo apply $D/patch.diff || exit 3
 cd /verif && ./check $ID --tier quick > /tmp/try_$1.log 2>&1; RC=$?
 git -C /repo checkout -- .
+# the evidence file now describes the changed tree: put the committed one back
+git -C /verif checkout -- evidence/$ID.json 2>/dev/null
 echo "$1 check=$ID exit=$RC"; grep -E "^VIOLATION|^KNOWN" /tmp/try_$1.log | head -5; grep "^#" /tmp/try_$1.log | cut -c1-300 | head -3
